@@ -393,6 +393,15 @@ def r_dstr(P, chk):
         desc = "%s %s: writes %s of DString `%s`" % (f.where(items[0][2]), f.name, sorted(fields), base)
         if "str" in fields:
             ok = {"currentStringLength", "currentStringBufferSize"} <= fields
+            if not ok and "currentStringLength" in fields:
+                # the archive hand-over of the package builders: str / length receive the two results of
+                # mz_zip_writer_finalize_heap_archive (directly through &X->str in the pinned tree, or through two locals) - a
+                # binary blob carried in a DString, reviewed: it is only written out and freed
+                fin = [c for c in f.calls("mz_zip_writer_finalize_heap_archive") if len(c["c"]) > 3]
+                outs = {key(a).lstrip("&(").rstrip(")") for c in fin for a in c["c"][2:4]}
+                srcs = {key(p2["c"][1]).strip("()") for n2, m2, p2 in items if n2 in ("str", "currentStringLength") and m2 == "="}
+                if fin and srcs and srcs <= outs:
+                    ok = True
             chk.obligation(rid, desc + " (buffer replaced: length and capacity must follow)", ok)
             if not ok:
                 chk.violation(rid, "dstr:swap:%s:%s" % (f.name, base), f.where(items[0][2]),
